@@ -4,6 +4,7 @@
 (*   dbus / exec / stack   one application, projected                             *)
 (*   leftover              a "#aa:" line in a written file                        *)
 (*   same                  two outputs that must be byte-identical (C02)          *)
+(*   blocks                the (name, flags) of the blocks of a file, wanted / got *)
 EXTENDS Directives, Json, IOUtils
 
 Trace == ndJsonDeserialize(IOEnv.VERIF_TRACE)
@@ -18,5 +19,8 @@ C07Exec  == ev.ev = "exec"  => (ExecOK(ev.d, ev.rules) \/ Rep("C07", "exec direc
 C07Stack == ev.ev = "stack" => (StackOK(ev.d, ev.before, ev.after, ev.targets) \/ Rep("C07", "stack directive: host is not its own rules plus every rule of the stacked profiles (minus base include, entry point, and exec transitions unless X) in the order given", ev.d))
 C07Left  == ev.ev = "leftover" => Rep("C07", "a #aa: directive remains in a written file", ev.line)
 C02Same  == ev.ev = "same" => (SameBytes(ev.a, ev.b) \/ Rep("C02", ev.what, [a |-> ev.a, b |-> ev.b]))
+\* C05 on builds asked for in another way (one group with --file <directory>; profiles a builder fails on): the
+\* flags of every block are those the mode and the manifests give it in the whole build
+C05Blocks == ev.ev = "blocks" => (ev.want = ev.got \/ Rep("C05", ev.what, [want |-> ev.want, got |-> ev.got]))
 Accepted == TLCGet("stats").diameter = Len(Trace) + 1
 ==============================================================================
